@@ -47,6 +47,7 @@ class Inliner:
         self.counter = 0
         self.log: List[str] = []
         self._spliced: Dict[str, set] = {}
+        self.generators: Dict[str, object] = {}
 
     # ---- candidates
     def candidates(self) -> Dict[str, object]:
@@ -60,6 +61,9 @@ class Inliner:
             if n.args.vararg or n.args.kwarg:
                 continue
             if any(isinstance(x, (ast.Yield, ast.YieldFrom)) for x in ast.walk(n)):
+                if self._simple_generator(n) is not None and not (f.cls is not None and any(f.name in k.methods and k is not f.cls for k in self.tree.classes.values() if f.cls in self.tree.mro(k) or k in self.tree.mro(f.cls))) \
+                        and not [d for d in n.decorator_list if ast.unparse(d) != "staticmethod"]:
+                    self.generators[key] = f
                 continue
             decos = [ast.unparse(d) for d in n.decorator_list]
             if any(d not in ("staticmethod",) for d in decos):
@@ -67,6 +71,128 @@ class Inliner:
             if f.cls is not None and any(f.name in k.methods and k is not f.cls for k in self.tree.classes.values() if f.cls in self.tree.mro(k) or k in self.tree.mro(f.cls)):
                 continue  # overridden / overriding: polymorphic
             out[key] = f
+        return out
+
+    @staticmethod
+    def _simple_generator(n):
+        """(statements before the loop, the loop, the yield statement) of a generator of the form
+        `<prelude>; for v in it: <body whose only yield is in tail position>` -- nothing after the loop, no return, no other yield"""
+        if isinstance(n, ast.AsyncFunctionDef) or n.args.vararg or n.args.kwarg:
+            return None
+        body = [x for x in n.body if not (isinstance(x, ast.Expr) and isinstance(x.value, ast.Constant) and isinstance(x.value.value, str))]
+        if not body or not isinstance(body[-1], ast.For) or body[-1].orelse:
+            return None
+        loop = body[-1]
+        ys = [x for x in ast.walk(n) if isinstance(x, (ast.Yield, ast.YieldFrom))]
+        if len(ys) != 1 or isinstance(ys[0], ast.YieldFrom) or ys[0].value is None:
+            return None
+        if any(isinstance(x, ast.Return) for x in ast.walk(n)) or any(isinstance(x, (ast.Yield, ast.YieldFrom)) for b in body[:-1] for x in ast.walk(b)):
+            return None
+        # the yield is an expression statement in tail position of the loop body (through trailing if / else / with / try bodies only)
+        def tail(stmts):
+            if not stmts:
+                return None
+            last = stmts[-1]
+            if isinstance(last, ast.Expr) and last.value is ys[0]:
+                return (stmts, len(stmts) - 1)
+            if isinstance(last, ast.If):
+                return tail(last.body) or tail(last.orelse)
+            return None
+
+        pos = tail(loop.body)
+        if pos is None:
+            return None
+        # no inner loop may contain the yield (a `break` of the consumer must end everything)
+        for x in ast.walk(loop):
+            if x is not loop and isinstance(x, (ast.For, ast.While)) and any(y is ys[0] for y in ast.walk(x)):
+                return None
+        return body[:-1], loop, pos
+
+    def _try_splice_generator(self, s, f):
+        """`for T in gen(args): B`  ->  the generator's own loop with `T = <yielded value>; B` in place of its yield"""
+        if not (isinstance(s, ast.For) and not s.orelse and isinstance(s.iter, ast.Call)):
+            return None
+        c = s.iter
+        g = self._callee(c, f, self.generators)
+        if g is None or g is f:
+            return None
+        a = g.node.args
+        params = [x.arg for x in a.posonlyargs + a.args]
+        is_method = g.cls is not None and not any(ast.unparse(d) == "staticmethod" for d in g.node.decorator_list)
+        if is_method:
+            params = params[1:]
+        if any(isinstance(x, ast.Starred) for x in c.args) or c.keywords or len(c.args) != len(params) or a.kwonlyargs or a.defaults:
+            return None
+        self.counter += 1
+        prefix = f"__gen{self.counter}_"
+        from .loader import local_bindings
+
+        fa = f.node.args
+        caller_names = {x.arg for x in fa.posonlyargs + fa.args + fa.kwonlyargs} | {n.id for n in ast.walk(f.node) if isinstance(n, ast.Name)}
+        locals_ = [n for n, _ in local_bindings(g.node)]
+        assigned = {n.id for n in ast.walk(g.node) if isinstance(n, ast.Name) and isinstance(n.ctx, (ast.Store, ast.Del))}
+        rename, subst, pre = {}, {}, []
+        for p_, v in zip(params, c.args):
+            pure = isinstance(v, (ast.Name, ast.Constant)) or (isinstance(v, ast.Attribute) and _pure_chain(v))
+            if pure and p_ not in assigned:
+                subst[p_] = v
+            else:
+                rename[p_] = prefix + p_
+                st = ast.Assign(targets=[ast.Name(id=prefix + p_, ctx=ast.Store())], value=ast_copy(v))
+                ast.copy_location(st, s)
+                pre.append(st)
+        for n in locals_:
+            rename[n] = (prefix + n) if n in caller_names else n
+        copy = ast_copy(g.node)
+        got = self._simple_generator(copy)
+        if got is None:
+            return None
+        prelude, loop, (stmts, idx) = got
+
+        class R(ast.NodeTransformer):
+            def visit_Name(self, n):
+                if n.id in subst and isinstance(n.ctx, ast.Load):
+                    return ast.copy_location(ast_copy(subst[n.id]), n)
+                if n.id in rename:
+                    n.id = rename[n.id]
+                return n
+
+        yielded = stmts[idx].value.value
+        bind = ast.Assign(targets=[s.target], value=yielded)
+        ast.copy_location(bind, s)
+        stmts[idx:idx + 1] = ["__BODY__"]
+        block = [R().visit(x) for x in prelude] + [loop]
+        # rename inside the loop (the consumer's body is inserted afterwards, untouched)
+        def ren(stmts_):
+            for k_, x in enumerate(stmts_):
+                if x == "__BODY__":
+                    continue
+                if isinstance(x, ast.If):
+                    x.test = R().visit(x.test)
+                    ren(x.body)
+                    ren(x.orelse)
+                else:
+                    stmts_[k_] = R().visit(x)
+        loop.target = R().visit(loop.target)
+        loop.iter = R().visit(loop.iter)
+        ren(loop.body)
+        bind.value = R().visit(bind.value)
+
+        def put(stmts_):
+            for k_, x in enumerate(stmts_):
+                if x == "__BODY__":
+                    stmts_[k_:k_ + 1] = [bind] + s.body
+                    return True
+                if isinstance(x, ast.If) and (put(x.body) or put(x.orelse)):
+                    return True
+            return False
+
+        if not put(loop.body):
+            return None
+        out = pre + block
+        for b in out:
+            ast.fix_missing_locations(b)
+        self._spliced.setdefault(g.key, set()).add(f.key)
         return out
 
     def _callee(self, call: ast.Call, caller, cands):
@@ -94,8 +220,18 @@ class Inliner:
     # ---- main
     def run(self):
         cands = self.candidates()
-        if not cands:
+        if not cands and not self.generators:
             return
+        # generators referenced otherwise than as `for ... in gen(...)` stay functions
+        for key, g in list(self.generators.items()):
+            name = g.name
+            for n in ast.walk(g.module.tree):
+                ref = (isinstance(n, ast.Attribute) and n.attr == name) or (g.cls is None and isinstance(n, ast.Name) and n.id == name and isinstance(n.ctx, ast.Load))
+                if ref:
+                    par = getattr(n, "_parent", None)
+                    gp = getattr(par, "_parent", None)
+                    if not (isinstance(par, ast.Call) and par.func is n and isinstance(gp, ast.For) and gp.iter is par):
+                        self.generators.pop(key, None)
         # any reference that is not a direct call disqualifies a candidate
         for key, g in list(cands.items()):
             name = g.name
@@ -132,7 +268,7 @@ class Inliner:
             if not changed:
                 break
         # helpers all of whose call sites were spliced disappear from the function tables
-        for key, g in cands.items():
+        for key, g in list(cands.items()) + list(self.generators.items()):
             if remaining_refs.get(key, 0) == 0 and self._spliced.get(key):
                 self.tree.funcs.pop(key, None)
                 if g.cls is not None:
@@ -159,7 +295,9 @@ class Inliner:
                 if isinstance(s, ast.Try):
                     for h in s.handlers:
                         process(h.body)
-                rep = self._try_splice(s, f, cands)
+                rep = self._try_splice_generator(s, f) if self.generators else None
+                if rep is None:
+                    rep = self._try_splice(s, f, cands)
                 if rep is not None:
                     body[i:i + 1] = rep
                     changed = True
@@ -463,6 +601,11 @@ class Inliner:
         tail_value = []
         body = [R().visit(b) for b in body]
         body = [b for b in body if b is not None]
+        from .normalise import _fold_fstrings
+
+        for b_ in body + tail_value:
+            for x_ in (b_ if isinstance(b_, list) else [b_]):
+                _fold_fstrings(x_)
         flat = []
         for b in body:
             flat.extend(b if isinstance(b, list) else [b])
